@@ -42,6 +42,9 @@ def tracing(log):
         log.depth += 1
         try:
             r = orig_split(self, allow_overlap=allow_overlap)
+        except common.CpuTimeout:
+            log.depth = 0
+            raise                        # the harness's own time limit, not an exception of the code under test
         except Exception as e:
             log.depth -= 1
             if log.depth == 0:
@@ -58,6 +61,8 @@ def tracing(log):
         _rec(log, self, dict(name='Restore'), None)
         try:
             r = orig_trim(self, *a, **k)
+        except common.CpuTimeout:
+            raise
         except Exception as e:
             _rec(log, self, dict(name='Raise', op='trim', exc=type(e).__name__, msg=str(e)[:150]), None, frozen=True)
             raise
